@@ -15,6 +15,7 @@ import (
 	"encoding/hex"
 	"errors"
 	"fmt"
+	"io"
 	"math/big"
 	"net"
 	"net/http"
@@ -429,7 +430,9 @@ var errDial = errors.New("fake dialer: connection refused")
 
 type fakeResolver struct {
 	mu      sync.Mutex
-	table   map[string][]net.IPAddr // nil entry = error
+	table   map[string][]net.IPAddr   // nil entry = error
+	seq     map[string][][]net.IPAddr // scripted: answer to the 1st, 2nd ... lookup (the last one repeats); nil = error
+	nseq    map[string]int
 	lookups []string
 }
 
@@ -437,6 +440,20 @@ func (f *fakeResolver) LookupIPAddr(_ context.Context, host string) ([]net.IPAdd
 	f.mu.Lock()
 	defer f.mu.Unlock()
 	f.lookups = append(f.lookups, host)
+	if sets, ok := f.seq[host]; ok && len(sets) > 0 {
+		if f.nseq == nil {
+			f.nseq = map[string]int{}
+		}
+		i := f.nseq[host]
+		f.nseq[host]++
+		if i >= len(sets) {
+			i = len(sets) - 1
+		}
+		if sets[i] == nil {
+			return nil, errResolve
+		}
+		return sets[i], nil
+	}
 	ips, ok := f.table[host]
 	if !ok || ips == nil {
 		return nil, errResolve
@@ -1101,9 +1118,11 @@ func e2eStream(pool [][]byte) {
 		in["hops"] = descr
 		guard("e2e", in, func() {
 			res := &fakeResolver{table: map[string][]net.IPAddr{}}
+			res.seq = map[string][][]net.IPAddr{}
 			for _, h := range hops {
 				if h.kind != "unresolvable" {
-					res.table[h.host] = addrs(h.answer)
+					// a rebinding resolver: every lookup after the first answers loopback
+					res.seq[h.host] = [][]net.IPAddr{addrs(h.answer), {{IP: net.IPv4(127, 0, 0, 1)}}}
 				}
 			}
 			ln := &chanListener{ch: make(chan net.Conn, 64), done: make(chan struct{})}
@@ -1192,6 +1211,21 @@ func e2eStream(pool [][]byte) {
 				if !found {
 					good = false
 					r.OracleFail("revocation-e2e-dialled-unresolved-address", in, "target "+vh.Hex(t))
+				}
+			}
+			perHost := map[string]int{}
+			for _, l := range res.lookups {
+				perHost[l]++
+				if perHost[l] == 2 {
+					good = false
+					r.OracleFail("revocation-e2e-resolved-again", in, "host "+l+" was resolved more than once for one connection (check-then-use)")
+				}
+			}
+			for _, c := range rec.calls {
+				h, _, _ := net.SplitHostPort(c.target)
+				if _, e := netip.ParseAddr(h); e != nil {
+					good = false
+					r.OracleFail("revocation-e2e-dialled-non-literal", in, "dial target "+c.target+" is not an IP literal")
 				}
 			}
 			for _, l := range res.lookups {
@@ -1478,6 +1512,432 @@ func clientSequenceStream(pool [][]byte) {
 	}
 }
 
+// ---------------------------------------------------------------- check-then-use (DNS rebinding)
+//
+// A scripted resolver answers the 1st, 2nd, 3rd lookup of a name differently (public first, then
+// loopback / private / link-local / metadata). One connection must resolve ONCE, vet that answer and
+// dial an IP literal taken from it. The image-box dial context hard-wires net.DefaultResolver, so the
+// harness replaces that variable by a pure-Go resolver whose "DNS server" is an in-process goroutine
+// behind net.Pipe (no packet leaves the process); its dialer is a net.Dialer whose Control hook
+// records the address actually dialled and lets the connect(2) proceed only towards the canary
+// listener on 127.0.0.1.
+
+type dnsScript struct {
+	mu   sync.Mutex
+	sets map[string][][][]byte // first label -> answer set per lookup (last repeats)
+	nq   map[string]map[uint16]int
+}
+
+func (d *dnsScript) lookups(key string) int {
+	d.mu.Lock()
+	defer d.mu.Unlock()
+	n := 0
+	for _, c := range d.nq[key] {
+		if c > n {
+			n = c
+		}
+	}
+	return n
+}
+
+func (d *dnsScript) respond(msg []byte) []byte {
+	if len(msg) < 17 {
+		return nil
+	}
+	off := 12
+	first := ""
+	for off < len(msg) && msg[off] != 0 {
+		l := int(msg[off])
+		if off+1+l > len(msg) {
+			return nil
+		}
+		if first == "" {
+			first = strings.ToLower(string(msg[off+1 : off+1+l]))
+		}
+		off += 1 + l
+	}
+	if off+5 > len(msg) {
+		return nil
+	}
+	qtype := uint16(msg[off+1])<<8 | uint16(msg[off+2])
+	qend := off + 5
+	d.mu.Lock()
+	if d.nq[first] == nil {
+		d.nq[first] = map[uint16]int{}
+	}
+	i := d.nq[first][qtype]
+	d.nq[first][qtype]++
+	sets := d.sets[first]
+	var set [][]byte
+	if len(sets) > 0 {
+		if i >= len(sets) {
+			i = len(sets) - 1
+		}
+		set = sets[i]
+	}
+	d.mu.Unlock()
+	var recs [][]byte
+	for _, a := range set {
+		if (qtype == 1 && len(a) == 4) || (qtype == 28 && len(a) == 16) {
+			recs = append(recs, a)
+		}
+	}
+	resp := []byte{msg[0], msg[1], 0x80 | (msg[2] & 1), 0x80, 0, 1, 0, byte(len(recs)), 0, 0, 0, 0}
+	resp = append(resp, msg[12:qend]...)
+	for _, a := range recs {
+		resp = append(resp, 0xc0, 0x0c, byte(qtype>>8), byte(qtype), 0, 1, 0, 0, 0, 0, 0, byte(len(a)))
+		resp = append(resp, a...)
+	}
+	return resp
+}
+
+func (d *dnsScript) serve(c net.Conn) {
+	defer c.Close()
+	rd := bufio.NewReader(c)
+	for {
+		var l [2]byte
+		if _, err := io.ReadFull(rd, l[:]); err != nil {
+			return
+		}
+		msg := make([]byte, int(l[0])<<8|int(l[1]))
+		if _, err := io.ReadFull(rd, msg); err != nil {
+			return
+		}
+		resp := d.respond(msg)
+		if resp == nil {
+			return
+		}
+		out := append([]byte{byte(len(resp) >> 8), byte(len(resp))}, resp...)
+		if _, err := c.Write(out); err != nil {
+			return
+		}
+	}
+}
+
+func (d *dnsScript) resolver() *net.Resolver {
+	return &net.Resolver{PreferGo: true, Dial: func(context.Context, string, string) (net.Conn, error) {
+		c, srv := net.Pipe()
+		go d.serve(srv)
+		return c, nil
+	}}
+}
+
+var poisons = [][]byte{
+	{127, 0, 0, 1}, {127, 0, 0, 1}, {10, 0, 0, 7}, {169, 254, 169, 254}, {192, 168, 1, 1}, {0, 0, 0, 0},
+	netip.MustParseAddr("::1").AsSlice(), netip.MustParseAddr("fe80::1").AsSlice(), netip.MustParseAddr("fd00::1").AsSlice(),
+	netip.MustParseAddr("::ffff:127.0.0.1").AsSlice(), // AAAA record carrying an IPv4-mapped loopback
+}
+
+func randPublicLen(n int) []byte {
+	for {
+		a := randPublic()
+		if len(a) == n && !(n == 16 && netip.AddrFrom16([16]byte(a)).Is4In6()) {
+			return a
+		}
+	}
+}
+
+// answer sets per lookup: the first is what gets vetted, the later ones are what a second
+// resolution would see
+func rebindScript(pool [][]byte) (sets [][][]byte, kind string) {
+	k := 1 + r.Rand.Intn(3)
+	fam := r.Rand.Intn(3) // 0: A only, 1: AAAA only, 2: mixed
+	var first [][]byte
+	for x := 0; x < k; x++ {
+		n := 4
+		if fam == 1 || (fam == 2 && r.Rand.Intn(2) == 0) {
+			n = 16
+		}
+		first = append(first, randPublicLen(n))
+	}
+	kind = fmt.Sprintf("%d-answers-public-then-poison", k)
+	switch r.Rand.Intn(10) {
+	case 0:
+		first = nil
+		kind = "no-answer"
+	case 1, 2:
+		p := randPrivate(pool)
+		if len(p) == 4 || len(p) == 16 {
+			first[r.Rand.Intn(len(first))] = p
+			kind = fmt.Sprintf("%d-answers-first-set-private", k)
+		}
+	}
+	sets = append(sets, first)
+	for x := 0; x < 2; x++ {
+		var later [][]byte
+		for y := 0; y < 1+r.Rand.Intn(2); y++ {
+			later = append(later, poisons[r.Rand.Intn(len(poisons))])
+		}
+		sets = append(sets, later)
+	}
+	return
+}
+
+func lookupsArg(sets [][][]byte, firstFail bool) string {
+	var parts []string
+	for i, set := range sets {
+		parts = append(parts, answerArg(set, i == 0 && firstFail))
+	}
+	return strings.Join(parts, "|")
+}
+
+func imageBoxRebindStream(pool [][]byte) {
+	dns := &dnsScript{sets: map[string][][][]byte{}, nq: map[string]map[uint16]int{}}
+	saved := net.DefaultResolver
+	net.DefaultResolver = dns.resolver()
+	defer func() { net.DefaultResolver = saved }()
+
+	// canary on loopback: nothing may ever connect to it
+	canaryPort := "9"
+	var canaryHits []string
+	var cmu sync.Mutex
+	if ln, err := net.Listen("tcp4", "127.0.0.1:0"); err == nil {
+		defer ln.Close()
+		_, canaryPort, _ = net.SplitHostPort(ln.Addr().String())
+		go func() {
+			for {
+				c, err := ln.Accept()
+				if err != nil {
+					return
+				}
+				cmu.Lock()
+				canaryHits = append(canaryHits, c.RemoteAddr().String())
+				cmu.Unlock()
+				c.Close()
+			}
+		}()
+		r.Count("class:rebind-canary-listening")
+	} else {
+		r.Count("class:rebind-canary-unavailable")
+	}
+	canaryAddr := net.JoinHostPort("127.0.0.1", canaryPort)
+
+	n := r.Pick(250, 3000)
+	for i := 0; i < n; i++ {
+		sets, kind := rebindScript(pool)
+		key, probe := fmt.Sprintf("n%d", i), fmt.Sprintf("p%d", i)
+		name := key + ".c30.test." // rooted: no search-list expansion
+		dns.mu.Lock()
+		dns.sets[key] = sets
+		dns.sets[probe] = sets[:1]
+		dns.mu.Unlock()
+		in := map[string]any{"fn": "imgconn", "name": name, "port": canaryPort, "kind": kind}
+		var descr []string
+		for _, set := range sets {
+			descr = append(descr, ipList(set))
+		}
+		in["answers_per_lookup"] = descr
+		guard("imagebox-rebind", in, func() {
+			// the order in which Go's resolver hands out the first answer set (RFC 6724 sorting), learnt
+			// from a twin name with the same records
+			var answer0 [][]byte
+			firstFail := false
+			pans, perr := net.DefaultResolver.LookupIPAddr(context.Background(), probe+".c30.test.")
+			if perr != nil {
+				firstFail = true
+			} else {
+				for _, a := range pans {
+					answer0 = append(answer0, []byte(a.IP))
+				}
+			}
+			var mu sync.Mutex
+			var calls []dialRec
+			d := &net.Dialer{Timeout: 2 * time.Second, Control: func(network, address string, _ syscall.RawConn) error {
+				mu.Lock()
+				calls = append(calls, dialRec{"tcp", address})
+				mu.Unlock()
+				if address == canaryAddr {
+					return nil // let a connection to the canary really happen
+				}
+				return errDial
+			}}
+			dc := primitives.VerifImageBoxDialContext(d)
+			cmu.Lock()
+			hits0 := len(canaryHits)
+			cmu.Unlock()
+			conn, derr := dc(context.Background(), "tcp", net.JoinHostPort(name, canaryPort))
+			if conn != nil {
+				conn.Close()
+			}
+			time.Sleep(0)
+			nlook := dns.lookups(key)
+			targets, ports, bad := decodeCalls(calls)
+			// mixed A/AAAA answers are merged by arrival order inside the resolver: take the dialled
+			// member as the head of the vetted list for the model (membership itself is the oracle's job)
+			has4, has16 := false, false
+			for _, a := range answer0 {
+				has4 = has4 || len(a) == 4 || netip.AddrFrom16([16]byte(net.IP(a).To16())).Is4In6()
+				has16 = has16 || !(len(a) == 4 || netip.AddrFrom16([16]byte(net.IP(a).To16())).Is4In6())
+			}
+			if has4 && has16 && len(targets) == 1 {
+				for j, a := range answer0 {
+					if string(canonTarget(a)) == string(targets[0]) {
+						answer0[0], answer0[j] = answer0[j], answer0[0]
+						break
+					}
+				}
+			}
+			decision := "none"
+			if len(targets) > 0 {
+				decision = "foreign"
+				for _, a := range answer0 {
+					if string(canonTarget(a)) == string(targets[0]) {
+						decision = vh.Hex(a)
+						break
+					}
+				}
+			}
+			var dnsErr *net.DNSError
+			var impl string
+			switch {
+			case bad != "":
+				impl = "bad:" + bad
+			case len(calls) == 0 && errors.As(derr, &dnsErr):
+				impl = "resolveerr"
+			case len(calls) == 0 && derr != nil:
+				impl = "rejected"
+			case len(calls) == 0:
+				impl = "no-dial-no-error"
+			default:
+				impl = "dialled:" + ipList(targets) + ":" + vh.Bool(conn != nil)
+			}
+			impl += fmt.Sprintf(";lookups=%x;unconsumed=%d;decision=%s", nlook, len(sets)-min(nlook, len(sets)), decision)
+			msets := append([][][]byte{answer0}, sets[1:]...)
+			r.Case("imgconn", []string{lookupsArg(msets, firstFail), "0"}, impl)
+
+			// oracle: what was really dialled
+			good := true
+			fail := func(class, detail string) {
+				good = false
+				r.OracleFail("imagebox-rebind-"+class, in, detail)
+			}
+			if nlook != 1 {
+				fail("resolved-again", fmt.Sprintf("one connection made %d lookups of the host; the second answer was never vetted", nlook))
+			}
+			anyPrivate := false
+			for _, a := range answer0 {
+				anyPrivate = anyPrivate || goSpec(a)
+			}
+			for _, c := range calls {
+				h, _, err := net.SplitHostPort(c.target)
+				lit, perr := netip.ParseAddr(h)
+				if err != nil || perr != nil {
+					fail("dialled-non-literal", "dialled "+c.target)
+					continue
+				}
+				t := lit.Unmap().AsSlice()
+				if !contains(answer0, t) {
+					fail("dialled-unvetted-address", "dialled "+c.target+", not a member of the vetted answer "+ipList(answer0))
+				}
+				if goSpec(t) {
+					fail("dialled-private", "dialled "+c.target)
+				}
+			}
+			if anyPrivate && len(calls) > 0 {
+				fail("dial-after-private-answer", "the vetted answer contains a private/local address, yet something was dialled")
+			}
+			for _, p := range ports {
+				if p != canaryPort {
+					fail("port-changed", p)
+				}
+			}
+			cmu.Lock()
+			hits := len(canaryHits) - hits0
+			cmu.Unlock()
+			if hits > 0 || conn != nil {
+				fail("canary-reached", "a TCP connection to the loopback canary "+canaryAddr+" was established")
+			}
+			if good {
+				r.OracleOK()
+			}
+			r.Count("class:imgrebind-" + kind)
+		})
+	}
+}
+
+func revocationRebindStream(pool [][]byte) {
+	n := r.Pick(600, 8000)
+	for i := 0; i < n; i++ {
+		hosts := randAllowList()
+		host := randHost()
+		sets, kind := rebindScript(pool)
+		firstFail := sets[0] == nil
+		res := &fakeResolver{seq: map[string][][]net.IPAddr{}}
+		var seq [][]net.IPAddr
+		for j, set := range sets {
+			if j == 0 && firstFail {
+				seq = append(seq, nil)
+			} else {
+				seq = append(seq, addrs(set))
+			}
+		}
+		res.seq[host] = seq
+		script := make([]bool, r.Rand.Intn(len(sets[0])+2))
+		for j := range script {
+			script[j] = r.Rand.Intn(2) == 0
+		}
+		port := []string{"80", "443"}[r.Rand.Intn(2)]
+		in := map[string]any{"fn": "revconn", "allow": hosts, "host": host, "port": port, "kind": kind, "script": scriptArg(script)}
+		var descr []string
+		for _, set := range sets {
+			descr = append(descr, ipList(set))
+		}
+		in["answers_per_lookup"] = descr
+		guard("revocation-rebind", in, func() {
+			rec := &recDialer{script: script}
+			dc := sign.VerifRevocationDialContext(res, rec.dial, sign.VerifAllowedRevocationHostSet(hosts))
+			conn, err := dc(context.Background(), "tcp", net.JoinHostPort(host, port))
+			if conn != nil {
+				conn.Close()
+			}
+			nlook := len(res.lookups)
+			targets, ports, bad := decodeCalls(rec.calls)
+			allowed := hostAllowed(hosts, host)
+			var impl string
+			switch {
+			case bad != "":
+				impl = "bad:" + bad
+			case len(rec.calls) == 0 && errors.Is(err, errResolve):
+				impl = "resolveerr"
+			case len(rec.calls) == 0 && err != nil:
+				impl = "rejected"
+			case len(rec.calls) == 0:
+				impl = "no-dial-no-error"
+			default:
+				impl = "dialled:" + ipList(targets) + ":" + vh.Bool(conn != nil && err == nil)
+			}
+			// candidates = the vetted list the loop may walk (observable: a dialer that always fails sees all of it)
+			cand := ""
+			if !firstFail && len(sets[0]) > 0 && (len(rec.calls) > 0) {
+				cand = ipList(sets[0])
+			}
+			impl += fmt.Sprintf(";lookups=%x;unconsumed=%d;candidates=%s", nlook, len(sets)-min(nlook, len(sets)), cand)
+			r.Case("revconn", []string{hostList(hosts), vh.Hex([]byte(host)), lookupsArg(sets, firstFail), scriptArg(script)}, impl)
+			good := true
+			if nlook != 1 {
+				good = false
+				r.OracleFail("revocation-rebind-resolved-again", in, fmt.Sprintf("one connection made %d lookups of the host", nlook))
+			}
+			for _, c := range rec.calls {
+				h, _, _ := net.SplitHostPort(c.target)
+				if _, e := netip.ParseAddr(h); e != nil {
+					good = false
+					r.OracleFail("revocation-rebind-dialled-non-literal", in, "dialled "+c.target)
+				}
+			}
+			if good {
+				r.OracleOK()
+			}
+			var vetted [][]byte
+			if !firstFail {
+				vetted = sets[0]
+			}
+			dialOracle("revocation-rebind", in, allowed, vetted, targets, ports, port, rec.calls)
+			r.Count("class:revrebind-" + kind)
+		})
+	}
+}
+
 func main() {
 	r = vh.Start("C30")
 	defer r.Finish()
@@ -1491,4 +1951,6 @@ func main() {
 	revocationSequenceStream(pool)
 	imageBoxSequenceStream(pool)
 	clientSequenceStream(pool)
+	revocationRebindStream(pool)
+	imageBoxRebindStream(pool)
 }
